@@ -25,10 +25,13 @@ SEED = int(os.environ.get("VERIF_SEED") or 1)
 @contextlib.contextmanager
 def injected(a: int, lt_seed: bytes):
     """Route the SRP client secret and the controller's new long-term key to generated values."""
+    srp_calls = []
+
     class _Client(SrpClient):
         @staticmethod
         def generate_private_key():
-            return a
+            srp_calls.append(1)       # every call yields another secret, as the real generator does
+            return a if len(srp_calls) == 1 else (int.from_bytes(h("srp-a", a, len(srp_calls))[:16], "big") | 1)
 
     calls = []
 
@@ -57,7 +60,7 @@ def wire(req):
 
 BREAKING = {"m2-flip", "m2-drop", "wrong-code", "m4-flip", "m4-drop-proof", "m4-other-proof", "m4-truncate-proof", "m6-flip", "m6-drop-enc", "m6-wrong-key",
             "m6-wrong-label", "m6-wrong-signer", "m6-other-id-unsigned", "m6-other-ltpk-unsigned", "m6-transcript", "m6-drop-inner",
-            "m6-ltpk-len", "m6-truncate", "m6-flip-inner", "m2-state-odd", "m4-state-odd", "m6-state-odd", "m6-inner-outside"}
+            "m6-ltpk-len", "m6-truncate", "m6-flip-inner", "m2-state-odd", "m4-state-odd", "m6-state-odd", "m6-inner-outside", "m2-error", "m4-error", "m6-error"}
 # m6-dup-inner-other: a second, unsigned Identifier/LTPK besides the signed ones.  Which copy a decoder keeps is its own business, so the
 # exchange may fail or succeed - but a success must return exactly the signed identity (checked for every returned record).
 PRESERVING = {"none", "m6-dup-inner-other", "m2-reorder", "m4-reorder", "m6-reorder", "m6-reorder-inner", "m2-drop-state", "m4-drop-state", "m6-drop-state"}
@@ -71,7 +74,12 @@ class SetupPeer:
         self.case = case
         k = self.k = case["k"]
         self.code, self.ios_id = case["code"], case["ios_id"]
-        self.acc_id = case["acc_id"].encode()
+        self.acc_id = bytes.fromhex(case["acc_id_hex"]) if case.get("acc_id_hex") else case["acc_id"].encode()
+        try:
+            self.acc_id.decode("utf-8")
+            self.id_is_text = True
+        except UnicodeDecodeError:
+            self.id_is_text = False        # cannot be represented in the (str-typed) record: refusing to pair is fine, returning another id is not
         self.fault = case["fault"]
         self.name = self.fault[0]
         self.salt = (bytes(case.get("salt_zeros", 0)) + h("salt", k))[:16]
@@ -100,6 +108,14 @@ class SetupPeer:
             return self._m6(items)
         self.malformed = f"request with State {st_!r}: {items!r:.200}"
         return tlv_enc([(T_STATE, b"\x02"), (T_ERROR, b"\x01")])
+
+    ERR_VALUES = [b"\x00", b"\x08", b"\xff", b"", b"\x02\x00", b"\x09", b"\x80", b"\x02", b"\x06", b"\x01"]
+
+    @classmethod
+    def _with_error(cls, items, variant):
+        """The otherwise valid reply also carries an Error item (defined code or not, empty, two bytes), after State or at the end."""
+        e = (T_ERROR, cls.ERR_VALUES[variant % len(cls.ERR_VALUES)])
+        return items[:1] + [e] + items[1:] if (variant // len(cls.ERR_VALUES)) % 2 == 0 else items + [e]
 
     @staticmethod
     def _odd_state(items, exp, variant):
@@ -133,6 +149,8 @@ class SetupPeer:
             m2 = [(t, v) for t, v in m2 if t != T_STATE]
         elif name == "m2-state-odd":
             m2 = self._odd_state(m2, 2, fault[1])
+        elif name == "m2-error":
+            m2 = self._with_error(m2, fault[1])
         self.stage = "m2"
         return tlv_enc(m2)
 
@@ -162,6 +180,8 @@ class SetupPeer:
             m4 = [(t, v) for t, v in m4 if t != T_STATE]
         elif name == "m4-state-odd":
             m4 = self._odd_state(m4, 4, fault[1])
+        elif name == "m4-error":
+            m4 = self._with_error(m4, fault[1])
         self.stage = "m4"
         return tlv_enc(m4)
 
@@ -187,6 +207,9 @@ class SetupPeer:
                 rebuild = False
             elif name == "m6-state-odd":
                 m6 = self._odd_state(m6, 6, fault[1])
+                rebuild = False
+            elif name == "m6-error":
+                m6 = self._with_error(m6, fault[1])
                 rebuild = False
             elif name == "m6-inner-outside":
                 # some of Identifier / LTPK / Signature are not in the encrypted sub-TLV but next to it, in the clear
@@ -268,6 +291,68 @@ def run_case(case, R):
     judge(case, R, peer, result, exc, transport)
 
 
+def run_tape(case, R):
+    """Two pair-setups of the real code in one process with the same setup code.  The first is honest and recorded; in the second a peer that
+    knows neither the code nor any key replays the recorded M2, M4 and M6.  The controller's SRP public value must be fresh each time."""
+    transport = case.get("decode", "ip")
+    R.nt()
+    R.cls("tape", "decode:" + transport)
+    peer = SetupPeer(dict(case, fault=["none"]))
+    tape = []
+
+    def exchange(answer, a, lt_seed):
+        sent_a = None
+        with injected(a, lt_seed):
+            try:
+                g1 = perform_pair_setup_part1(case.get("with_auth", True))
+                req, exp = g1.send(None)
+                try:
+                    g1.send(dec(transport, answer(wire(req)), exp))
+                    raise RuntimeError("part1 yielded twice")
+                except StopIteration as r:
+                    s_salt, s_pk = r.value
+                g2 = perform_pair_setup_part2(peer.code, peer.ios_id, s_salt, s_pk)
+                req, exp = g2.send(None)
+                sent_a = bytes(dict(wire(req)).get(T_PK, b""))
+                for _ in range(2):
+                    req, exp = g2.send(dec(transport, answer(wire(req)), exp))
+                raise RuntimeError("part2 yielded a fourth request")
+            except StopIteration as r:
+                return r.value, None, sent_a
+            except Exception as e:  # noqa: BLE001
+                return None, e, sent_a
+
+    def record(items):
+        raw = peer.respond(items)
+        tape.append(raw)
+        return raw
+    res1, exc1, a1 = exchange(record, peer.a, peer.lt_seed)
+    if res1 is None:
+        R.fail("C03.honest-rejected", f"recorded exchange: {type(exc1).__name__}: {exc1}", exc=type(exc1).__name__, stage=peer.stage)
+        return
+    replay = iter(tape)
+    res2, exc2, a2 = exchange(lambda items: next(replay), int.from_bytes(h("a2", case["k"])[:16], "big") | 1, h("ios-ltsk-2", case["k"]))
+    if a2 is not None and a2 == a1:
+        R.fail("C03.exchange-key-reused", f"the controller sent the same SRP public value {a1.hex()[:16]}.. in two pair-setup exchanges", decode=transport)
+        return
+    if res2 is not None:
+        R.fail("C03.forged-reply-accepted", f"M2/M4/M6 recorded from an earlier pair-setup were accepted in a new one (decode={transport})", family="tape-replay")
+
+
+def enum_ids(tier):
+    """Honest exchanges with accessory identifiers that are not text: pairs that a lossy decoding would make equal."""
+    for i, hx in enumerate(["4143432dfe", "4143432dff", "ff", "fe", "c3", "41c328", "e282", "f0288c28", "00", "41004100"]):
+        for dec_ in ("ip", "ble"):
+            yield {"k": SEED * 49979687 + i, "code": "111-22-333", "acc_id": "unused", "acc_id_hex": hx, "ios_id": "ios-%d" % i, "decode": dec_, "with_auth": True, "salt_zeros": 0,
+                   "fault": ["none"]}
+
+
+def enum_tape(tier):
+    for i in range(4 if tier == "quick" else 24):
+        yield {"k": SEED * 86028121 + i, "code": "%03d-%02d-%03d" % (i * 91 % 1000, i % 100, i * 13 % 1000), "acc_id": "AA:BB:CC:DD:EE:FF",
+               "ios_id": "decc6fa3-de3e-41c9-adba-ef7409821bfc", "decode": ["ip", "ble"][i % 2], "with_auth": bool(i % 2), "salt_zeros": 0}
+
+
 def judge(case, R, peer, result, exc, transport, verify=True):
     name, acc, k = peer.name, peer.acc, peer.k
     code, ios_id, acc_id, ident, stage = peer.code, peer.ios_id, peer.acc_id, peer.ident, peer.stage
@@ -297,7 +382,9 @@ def judge(case, R, peer, result, exc, transport, verify=True):
             R.fail("C03.controller-m5-rejected", f"{what}: reference rejected M5: {acc.m5_error} / controller: {exc!r:.200}")
         return
     if result is None:
-        if name == "none":
+        if name == "none" and not peer.id_is_text:
+            R.cls("non-text-id:rejected")
+        elif name == "none":
             R.fail("C03.honest-rejected", f"{what}: stage {stage}: {type(exc).__name__}: {exc}", exc=type(exc).__name__, stage=stage)
         else:
             R.cls("preserving:rejected")
@@ -552,6 +639,8 @@ FAULTS = sorted(BREAKING | PRESERVING)
 def cases(draw):
     case = {"k": draw(st.integers(0, 2**32)), "code": draw(CODES), "acc_id": draw(IDS), "ios_id": draw(IOS_IDS),
             "decode": draw(st.sampled_from(["ip", "ble"])), "with_auth": draw(st.booleans()), "salt_zeros": draw(st.sampled_from([0, 0, 1, 3, 16]))}
+    if draw(st.integers(0, 11)) == 0:      # an identifier that is not valid UTF-8
+        case["acc_id_hex"] = draw(st.sampled_from(["4143432dfe", "4143432dff", "ff", "c3", "41c328", "e282", "f0288c28"]))
     name = draw(st.sampled_from(FAULTS + ["none"] * 3))
     bit = draw(st.integers(0, 5000))
     if name == "m2-flip":
@@ -590,6 +679,8 @@ def enum_families(tier):
             fl += [[name, p] for p in range(8)]
         elif name.endswith("-state-odd"):
             fl += [[name, p] for p in range(4)]
+        elif name in ("m2-error", "m4-error", "m6-error"):
+            fl += [[name, p] for p in range(20)]
         elif name == "m6-inner-outside":
             fl += [[name, p] for p in (0, 1, 2, 3, 4, 8, 9, 10, 11, 12)]
         elif name == "m4-truncate-proof":
@@ -650,6 +741,9 @@ SPEC = Property(
         Layer("fault-families", run_case, enumerate=enum_families, exhaustive=True,
               space="every fault family with its parameter grid (quick: sampled bit positions; thorough: every bit of salt/proof/M6, every 8th bit of B)", min_nontrivial=60),
         Layer("generated", run_case, strategy=cases, n={"quick": 2400, "thorough": 40000}, min_nontrivial=300),
+        Layer("non-text-identifiers", run_case, enumerate=enum_ids, exhaustive=True, space="10 accessory identifiers that are not valid UTF-8 (or contain NUL) x {ip, ble}: refused, or returned exactly"),
+        Layer("tape-replay", run_tape, enumerate=enum_tape, exhaustive=True,
+              space="an honest pair-setup recorded, then its M2/M4/M6 replayed to a second pair-setup of the same process; SRP public values of the two exchanges distinct", min_nontrivial=4),
         Layer("leading-zero-exchanges", run_corpus, enumerate=enum_corpus, exhaustive=True,
               space="the mined exchanges of data/c02_corpus.json (A, B, S, K, M1 or M2 starting with 0x00) as complete honest pair-setups x {ip, ble} decode", min_nontrivial=100),
         Layer("leading-zero-end-to-end", run_e2e, enumerate=enum_corpus_e2e, exhaustive=True,
